@@ -1,7 +1,9 @@
 // hv: correspondence harness. `hv <property> -seed S -n N -tier quick|thorough -out DIR`
 // runs the real Havoc code (linked from /repo/teamserver, build tag verif) on
 // generated inputs and writes DIR/ops.txt: one operation per line,
-//     <op> <args...> => <what the implementation did>
+//
+//	<op> <args...> => <what the implementation did>
+//
 // plus DIR/stats.json (input distribution).  The Lean driver reads the same file.
 package main
 
@@ -16,8 +18,14 @@ import (
 	"sort"
 	"strings"
 
+	"io"
+
+	"Havoc/pkg/logger"
+
 	"verifharness/internal/gen"
 )
+
+func init() { logger.LoggerInstance = logger.NewLogger(io.Discard) }
 
 type Ctx struct {
 	R      *gen.Rng
